@@ -6,11 +6,13 @@ CONSTANTS
   Types = {"i16", "f32"}
   RasDims <- RDimsMC
   ScaleSets <- ScalesT
+  Grows = {1, 2}
   MaxObjs = 4
   MaxOps = 100
   Mix = TRUE
   KeepHist = FALSE
 VIEW view
+CONSTRAINT GrowBound
 INVARIANTS SeedsDistinct
 PROPERTIES Stable
 CHECK_DEADLOCK FALSE
